@@ -51,6 +51,15 @@ def gen_chromosome(r, cname, base, span, n_genes, n_tes, groups, maxw, feats):
         g = dict(r.choice(genes)); g["name"] = "%s_gx" % cname
         g["start"] = max(lo, g["start"] - r.randint(0, 50)); genes.append(g)
         feats.add("overlapping_genes")
+    if genes and r.random() < 0.3:                 # gene models sharing a start (different stops), in either file order
+        g0 = r.choice(genes)
+        g = dict(g0); g["name"] = "%s_gy" % cname
+        g["stop"] = min(hi, g0["stop"] + r.choice([1, 7, 150, r.randint(1, 900)]))
+        if g["stop"] == g0["stop"] and g0["stop"] > g0["start"]:
+            g["stop"] = g0["stop"] - 1
+        if g["stop"] != g0["stop"]:
+            genes.insert(genes.index(g0) + r.choice([0, 1]), g)
+            feats.add("genes_same_start")
     # region boundaries of interest, for TE placement
     marks = []
     for g in genes:
